@@ -16,6 +16,7 @@ macro_rules! with_prop {
             "C04" => $m!(props::C04, $($args)*),
             "C05" => $m!(props::C05, $($args)*),
             "C08" => $m!(props::C08, $($args)*),
+            "C09" => $m!(props::C09, $($args)*),
             "C10" => $m!(props::C10, $($args)*),
             "C11" => $m!(props::C11, $($args)*),
             "C13" => $m!(props::C13, $($args)*),
